@@ -138,7 +138,7 @@ class L2Domain:
                 return out
             if isinstance(itv, SymRange):
                 n = simp(Size.of(itv.hi, self.ctx.atoms) - itv.lo)
-                return SymList(out[0], n)
+                return SymList(out[0], n, getattr(self, 'last_symidx', None))
         return out
 
     def on_branch(self, it, node, v, outcome):
@@ -171,16 +171,17 @@ class L2Domain:
 
     def iterate(self, it, x):
         if isinstance(x, SymRange):
-            return iter([SymIdx(x.lo, x.hi)])
+            self.last_symidx = SymIdx(x.lo, x.hi)
+            return iter([self.last_symidx])
         return None
 
 
 class SymList(list):
     """a list of symbolic length n whose elements all look like `elem` (one representative)"""
 
-    def __init__(self, elem, n):
+    def __init__(self, elem, n, index=None):
         list.__init__(self, [elem])
-        self.elem, self.n = elem, n
+        self.elem, self.n, self.index = elem, n, index      # index: the loop variable (SymIdx) the representative element was computed with
 
 
 class TTSpec:
